@@ -19,6 +19,8 @@ fn main() {
         "td-record" => vh::fam_td::record(&args),
         "td-replay" => vh::fam_td::replay(&args),
         "hllv-record" => vh::fam_hllfmt::record(&args),
+        "ext-record" => vh::fam_ext::record(&args),
+        "size-record" => vh::fam_ext::record_sizes(&args),
         "hllu-record" => vh::fam_hll::record_union(&args),
         c => {
             eprintln!("unknown command {c}");
